@@ -2,6 +2,7 @@ import Driver.Ops
 import Driver.State
 import Driver.Typed
 import Driver.Upd
+import Driver.Ser
 open SMD SMD.Wire
 namespace Driver
 
@@ -18,7 +19,7 @@ def step (st : State) (line : String) : State × String :=
       match stepUpd st name rest with
       | some r => r
       | none => (st, "bad-args " ++ name)
-    else (st, runOpWith (allOps ++ opsTyped st ++ opsFlt st) line)
+    else (st, runOpWith (allOps ++ opsSer ++ opsTyped st ++ opsFlt st) line)
   | none => (st, "bad-op")
 
 end Driver
